@@ -248,6 +248,22 @@ func (f *Facts) funcTargets(v ssa.Value) (out []*ssa.Function, ok bool) {
 					}
 					return
 				}
+				// a package-level function variable (`var sha1Sum = hashSum(sha1.New)`): what is stored into it
+				if g, isG := x.X.(*ssa.Global); isG {
+					n := 0
+					for _, fn := range f.w.Funcs {
+						for _, st := range f.info(fn).stores {
+							if st.Addr == ssa.Value(g) {
+								n++
+								walk(st.Val)
+							}
+						}
+					}
+					if n == 0 {
+						ok = false
+					}
+					return
+				}
 				// load of a cell: collect stores to the owning alloc
 				if cell := f.ownerCell(x.X); cell != nil {
 					st := f.storesToCell(cell)
